@@ -25,12 +25,20 @@ func (x *Exec) bumpEpoch(st *State) {
 
 // functionalResult builds result i of fn as a UF application.
 func (x *Exec) functionalResult(st *State, fn *ssa.Function, i int, args []Value) Value {
-	key := funcKey(fn)
-	ins := []*Term{x.epochTerm(st)}
-	for j, p := range fn.Params {
-		ins = append(ins, x.flatten(p.Type(), args[j])...)
+	con := x.CS.Funcs[funcKey(fn)]
+	if con == nil {
+		con = &FuncContract{}
 	}
-	rt := fn.Signature.Results().At(i).Type()
+	return x.functionalResultDesc(st, x.descOfFunc(fn, con), i, args)
+}
+
+func (x *Exec) functionalResultDesc(st *State, d *calleeDesc, i int, args []Value) Value {
+	key := d.key
+	ins := []*Term{x.epochTerm(st)}
+	for j, pt := range d.ptypes {
+		ins = append(ins, x.flatten(pt, args[j])...)
+	}
+	rt := d.results.At(i).Type()
 	cs := x.compsOf(rt)
 	var ts []*Term
 	for _, cp := range cs {
@@ -79,14 +87,15 @@ func (x *Exec) specFunctionalCall(env *SpecEnv, fn *ssa.Function, resName string
 			specFail("%s has no result named %s", funcKey(fn), resName)
 		}
 	}
-	if len(args) != len(fn.Params) {
-		specFail("%s: expected %d arguments, got %d", funcKey(fn), len(fn.Params), len(args))
+	d := x.descOfFunc(fn, con)
+	if len(args) != len(d.ptypes) {
+		specFail("%s: expected %d arguments, got %d", funcKey(fn), len(d.ptypes), len(args))
 	}
 	var vals []Value
-	for j, p := range fn.Params {
-		vals = append(vals, x.coerceTo(args[j], p.Type()).V)
+	for j, pt := range d.ptypes {
+		vals = append(vals, x.coerceTo(args[j], pt).V)
 	}
-	v := x.functionalResult(env.state(), fn, idx, vals)
+	v := x.functionalResultDesc(env.state(), d, idx, vals)
 	return TV{v, rs.At(idx).Type()}
 }
 
